@@ -24,7 +24,7 @@ func init() {
 
 var c18ifaces = map[string]gIface{ //nolint:gochecknoglobals
 	"eth0": {Name: "eth0", Up: true, Addrs: []string{"10.0.0.1", "2001:db8::1"}},
-	"eth1": {Name: "eth1", Up: true, Addrs: []string{"192.168.1.2", "fe80::2", "fec0::1", "::10.0.0.9"}},
+	"eth1": {Name: "eth1", Up: true, Addrs: []string{"192.168.1.2", "fe80::2", "fec0::1", "fed1::1", "feff:ffff::1", "::10.0.0.9"}},
 	"lo":   {Name: "lo", Up: true, Loopback: true, Addrs: []string{"127.0.0.1", "::1"}},
 	"eth2": {Name: "eth2", Up: false, Addrs: []string{"10.9.9.9"}},
 }
